@@ -251,11 +251,14 @@ def run(ctx, chk):
     # positive control of the classifier: a synthetic store into the value column is recognised
     cf = facts(ctx, "Exploit")
     cn = cf.cn
+    # (the private name of the value column's index attribute is read off the decoded layout)
+    value_attr = next((n for n in sorted(ctx.layout.forms)
+                       if ctx.layout.family_of_attr(n) == ("value", "scalar")), "_value_idx")
     fake = Event("store", (), "synthetic", "synthetic",
                  {"target": "sub", "base": ("sub", ("attr", cf.d.state_param, cn.tensor_attr),
                                             ("sub", ("attr", cf.d.state_param, cn.map_attr),
                                              ("attr", cf.d.action, "target"))),
-                  "idx": ("clsattr", "HostVector", "_value_idx"), "value": C(0)}, 0, 0, ())
+                  "idx": ("clsattr", "HostVector", value_attr), "value": C(0)}, 0, 0, ())
     ef = store_effect(cn, fake)
     if ef is None or ef.fam not in CONFIG or classify_root(cn, ef.root)[0] != "OWNED":
         from sa.model import AnalysisError
